@@ -377,6 +377,35 @@ pub fn run(run: &mut Run) {
                 return;
             }
         }
+        // the same project with the main file spelled the way a user types it from different working directories
+        for (spelled, cwd) in [("main.sy", "/p"), ("./main.sy", "/p"), ("p/main.sy", "/"), ("../p/main.sy", "/q"), ("./p/../p/main.sy", "/")] {
+            acc.evaluations += 1;
+            let (o, rlog) = compile_spelled(&files, spelled, cwd, true);
+            let verdict: Option<(String, String)> = match &o {
+                Outcome::Ok(lua) => {
+                    let r = run_lua(lua, 5_000_000);
+                    let mut counts: BTreeMap<&String, usize> = BTreeMap::new();
+                    for (_, key) in &rlog {
+                        *counts.entry(key).or_insert(0) += 1;
+                    }
+                    if r.end != LuaEnd::Done || r.out != refs[*si] {
+                        Some(("behaviour-depends-on-how-main-is-spelled".into(), format!("single file prints {:?}\nproject prints    {:?} {:?}", refs[*si], r.out, r.end)))
+                    } else if files.keys().any(|k| counts.get(k).copied().unwrap_or(0) != 1) || rlog.len() != files.len() {
+                        Some(("file-not-read-exactly-once".into(), format!("read log: {:?}", rlog)))
+                    } else {
+                        None
+                    }
+                }
+                other => Some(("valid-project-rejected".into(), other.short())),
+            };
+            match verdict {
+                None => acc.outcome("main-spelling:same-behaviour-every-file-read-once"),
+                Some((sig, detail)) => {
+                    acc.outcome(&sig);
+                    acc.fail(Failure { sig, preds: vec![format!("main-spelled:{}", spelled)], detail: format!("{}\nmain given as `{}` from working directory {}\n{}\n{:#?}", desc, spelled, cwd, detail, files), case: json!({"engine": "c12", "files": fm.clone(), "expected": refs[*si], "expect": "same", "main_spelled": spelled, "cwd": cwd}), size: files.len() * 1000 + nimports + 1 });
+                }
+            }
+        }
         // negative twins
         for kind in ["drop", "missing", "collide"] {
             for k in 0..nimports {
@@ -406,7 +435,7 @@ pub fn run(run: &mut Run) {
         }
     });
     run.stats = Stats::merge_all(accs);
-    run.rule = "item sets of 4-6 globals (constant, mutable, function using the constant, blob, enum, function mutating the mutable); every assignment of the items to main + 1..2 further files x every placement of those files (root, sub-folder, sub/exports.sy) x import style per ordered file pair (use + qualified name, use as alias, from use, from use as; parenthesised lists when several names; /-rooted paths from sub-folder files; cyclic imports arise when items reference main or each other); per project three families of negative twins (each import dropped, a missing name/module, a colliding alias); non-trivial = every project; distinct by file map".into();
+    run.rule = "item sets of 4-6 globals (constant, mutable, function using the constant, blob, enum, function mutating the mutable); every assignment of the items to main + 1..2 further files x every placement of those files (root, sub-folder, sub/exports.sy) x import style per ordered file pair (use + qualified name, use as alias, from use, from use as; parenthesised lists when several names; /-rooted paths from sub-folder files; cyclic imports arise when items reference main or each other); each project also compiled with the main file spelled `main.sy`, `./main.sy`, `p/main.sy`, `../p/main.sy`, `./p/../p/main.sy` from matching working directories (same behaviour, every file read once under its normalised path); per project three families of negative twins (each import dropped, a missing name/module, a colliding alias); non-trivial = every project; distinct by file map".into();
     run.bounds = json!({"item_sets": item_sets, "projects": cases.len(), "style_vectors": if thorough {16} else {4}});
     run.assumptions = vec![
         "the reference behaviour is that of the single-file program (compiled and run the same way), which C01 ties to the source semantics".into(),
@@ -418,6 +447,23 @@ pub fn replay(case: &serde_json::Value) -> Option<(String, String)> {
     let mut files = Files::new();
     for (k, v) in case["files"].as_object()? {
         files.insert(k.clone(), v.as_str()?.to_string());
+    }
+    if let (Some(spelled), Some(cwd)) = (case["main_spelled"].as_str(), case["cwd"].as_str()) {
+        let (o, rlog) = compile_spelled(&files, spelled, cwd, true);
+        return match o {
+            Outcome::Ok(lua) => {
+                let r = run_lua(&lua, 5_000_000);
+                let want: Vec<String> = case["expected"].as_array()?.iter().filter_map(|x| x.as_str().map(|s| s.to_string())).collect();
+                if r.out != want || r.end != LuaEnd::Done {
+                    Some(("behaviour-depends-on-how-main-is-spelled".into(), format!("{:?} {:?}", r.out, r.end)))
+                } else if rlog.len() != files.len() {
+                    Some(("file-not-read-exactly-once".into(), format!("{:?}", rlog)))
+                } else {
+                    None
+                }
+            }
+            other => Some(("valid-project-rejected".into(), other.short())),
+        };
     }
     let out = compile(&files, MAIN, true);
     match case["expect"].as_str()? {
